@@ -1,9 +1,563 @@
-/- C04 — task and join-handle lifecycle (work in progress; see notes/C04.md) -/
-import Compio.Model.Executor
+/-
+C04 — task and join-handle lifecycle (compio-executor).
+Property theorems only; helper lemmas live in Compio/Lemmas/Executor*.lean and Lemmas/RemoteJoin.lean.
+
+Part 1: the home thread. All statements are about the functions the driver executes
+(`Compio.Executor.applyR` / `apply` / `run`) and hold for EVERY program `ops : List Op`.
+Part 2: the join handle polled / dropped on another thread (labelled transition system
+Compio/Model/RemoteJoin.lean), for every interleaving.
+-/
+import Compio.Lemmas.ExecutorSteps
+import Compio.Lemmas.RemoteJoin
 
 namespace Compio.Props.C04
-open Compio.Executor
+open Compio.TaskWord Compio.Gen Compio.Executor
 
-theorem init_alive : Exec.init.alive = true := rfl
+/-! ## 1. The lifecycle invariant, for every program -/
+
+/-- the inductive invariant holds after every sequence of operations -/
+theorem lifecycle_invariant (ops : List Op) : Inv (run ops) := run_inv ops
+
+/-- every operation preserves it (so it also holds between the operations of a program) -/
+theorem lifecycle_invariant_step (e : Exec) (h : Inv e) (op : Op) : Inv (apply e op) := apply_inv h op
+
+section unpacked
+variable (ops : List Op) (id : Nat) (t : TaskSt) (hg : (run ops).get? id = some t)
+include hg
+
+/-- (R) reference count = number of holders: the executor (while the task is queued), the handle, the wakers -/
+theorem refcount_eq_holders (hd : t.deallocs = 0) :
+    t.word.count = (if inMap (run ops) id then 1 else 0) + (if t.handle then 1 else 0) + t.wakers :=
+  ((run_inv ops).t id t hg).rc hd
+
+/-- (D) the allocation is freed at most once, exactly when the last holder is gone, and nothing touches it
+afterwards -/
+theorem dealloc_exactly_once :
+    t.deallocs ≤ 1 ∧
+    (t.deallocs = 1 ↔ (if inMap (run ops) id then 1 else 0) + (if t.handle then 1 else 0) + t.wakers = 0) ∧
+    t.uaf = 0 := by
+  have h := (run_inv ops).t id t hg
+  have hdl := h.dl
+  unfold holders at hdl
+  by_cases hz : (if inMap (run ops) id then 1 else 0) + (if t.handle then 1 else 0) + t.wakers = 0
+  · rw [if_pos hz] at hdl
+    exact ⟨by omega, by simp [hdl, hz], h.uaf⟩
+  · rw [if_neg hz] at hdl
+    exact ⟨by omega, ⟨fun h1 => by omega, fun h1 => absurd h1 hz⟩, h.uaf⟩
+
+/-- (F) the future is dropped at most once; while the task is queued it is alive (not dropped, not
+completed, storage = future, `shared` valid); once the executor let go of the task (completion,
+cancellation, executor drop) it has been dropped exactly once -/
+theorem future_dropped_exactly_once :
+    t.futDrops ≤ 1 ∧
+    (inMap (run ops) id = true →
+      t.storage = .future ∧ t.futDrops = 0 ∧ t.word.completed = false ∧ t.shared = true) ∧
+    (inMap (run ops) id = false → t.futDrops = 1 ∧ t.shared = false) := by
+  have h := (run_inv ops).t id t hg
+  refine ⟨?_, fun hi => ⟨h.inq_st hi, h.inq_fd hi, h.inq_c hi, h.inq_sh hi⟩, fun hi => ⟨h.outq_fd hi, h.outq_sh hi⟩⟩
+  cases hi : inMap (run ops) id
+  · rw [h.outq_fd hi]; omega
+  · rw [h.inq_fd hi]; omega
+
+/-- (P) the future is never polled after it completed (and never once cancelled: `cancelled_never_polled`) -/
+theorem never_polled_after_completion : t.badPolls = 0 := ((run_inv ops).t id t hg).bp
+
+/-- (S) HAS_RESULT ⇔ the storage holds a result; the output / panic payload is taken or dropped at most
+once; once the allocation is freed: exactly once iff the task completed -/
+theorem result_exactly_once :
+    (t.deallocs = 0 → (t.word.hasResult = true ↔ (t.storage = .resultOk ∨ t.storage = .resultPanic))) ∧
+    t.resTaken + t.resDrops ≤ 1 ∧
+    (t.deallocs = 1 → (t.resTaken + t.resDrops = 1 ↔ t.word.completed = true)) := by
+  have h := (run_inv ops).t id t hg
+  refine ⟨?_, ?_, ?_⟩
+  · intro hd
+    rw [h.res hd]
+    cases t.storage <;> simp [isRes]
+  · rw [h.cnt]; split <;> omega
+  · intro hd
+    rw [h.cnt, hd]
+    cases t.word.completed <;> simp
+
+/-- (W) HAS_WAKER ⇔ the waker slot is occupied; every join waker stored is dropped exactly once, except
+the one still stored; none is left when the allocation is freed -/
+theorem join_waker_accounting :
+    (t.word.hasWaker = true ↔ t.slot.isSome = true) ∧
+    t.slotSets = t.slotDrops + (if t.slot.isSome then 1 else 0) ∧
+    (t.deallocs = 1 → t.slot = none ∧ t.slotSets = t.slotDrops) := by
+  have h := (run_inv ops).t id t hg
+  refine ⟨by rw [h.wk], h.sl, ?_⟩
+  intro hd
+  have hin : inMap (run ops) id = false := by
+    cases hi : inMap (run ops) id
+    · rfl
+    · have := h.dl; rw [hd, hi] at this; simp [holders] at this
+  have hs := h.outq_slot hin
+  exact ⟨hs, by rw [h.sl, hs]; simp⟩
+
+/-- the home thread never leaves the SETTING_WAKER section open -/
+theorem not_setting_waker : t.word.notSettingWaker = true := ((run_inv ops).t id t hg).nsw
+
+end unpacked
+
+/-- (Q) the queues are duplicate-free, disjoint, and contain only valid task ids -/
+theorem queue_well_formed (ops : List Op) :
+    (run ops).hot.Nodup ∧ (run ops).cold.Nodup ∧ (∀ x, x ∈ (run ops).hot → x ∉ (run ops).cold) ∧
+    (∀ x, x ∈ (run ops).hot ∨ x ∈ (run ops).cold → x < (run ops).tasks.length) := by
+  have q := (run_inv ops).q
+  exact ⟨q.hnd, q.cnd, fun x h1 h2 => q.disj x h1 h2, fun x h => h.elim (q.hval x) (q.cval x)⟩
+
+/-- (D) no use after free, in its strongest form: once the allocation of a task was freed, no
+operation whatsoever changes (or reads through a live holder) that task any more -/
+theorem nothing_touches_freed_task (ops : List Op) (id : Nat) (t : TaskSt)
+    (hg : (run ops).get? id = some t) (hd : t.deallocs = 1) (op : Op) :
+    (apply (run ops) op).get? id = some t := frozen_after_free (run_inv ops) hg hd op
+
+/-- tasks are never forgotten, and each evolves only by the primitive per-task steps of the model -/
+theorem task_evolves_by_steps (ops more : List Op) (id : Nat) (t : TaskSt) (hg : (run ops).get? id = some t) :
+    ∃ t', (run (ops ++ more)).get? id = some t' ∧ TaskSteps t t' := by
+  have := foldl_steps more (run_inv ops) hg
+  simpa [run, List.foldl_append] using this
+
+/-! ## 2. Polls happen only inside `tick`; the handle API never hits its `unreachable!` -/
+
+/-- (P) no operation other than `tick` polls any future -/
+theorem polls_only_in_tick (e : Exec) (h : Inv e) (op : Op) (hop : ∀ n, op ≠ .tick n)
+    (id : Nat) (t : TaskSt) (hg : e.get? id = some t) :
+    ∃ t', (apply e op).get? id = some t' ∧ t'.polls = t.polls := by
+  rcases apply_cases e op with h0 | ⟨id', t1, t', hg', _, hp, h1 | h1⟩ | ⟨ha, ⟨sc, rfl⟩ | ⟨n, rfl⟩ | rfl⟩
+  · exact ⟨t, by rw [h0]; exact hg, rfl⟩
+  · by_cases hx : id = id'
+    · subst hx; rw [hg] at hg'; cases hg'
+      exact ⟨t', by rw [h1]; exact get?_setTask_self _ hg, hp⟩
+    · exact ⟨t, by rw [h1, get?_setTask_ne _ _ hx]; exact hg, rfl⟩
+  · by_cases hx : id = id'
+    · subst hx; rw [hg] at hg'; cases hg'
+      exact ⟨t', by rw [h1]; exact get?_setTask_self _ (by rw [scheduleLocal_get?]; exact hg), hp⟩
+    · exact ⟨t, by rw [h1, get?_setTask_ne _ _ hx, scheduleLocal_get?]; exact hg, rfl⟩
+  · refine ⟨t, ?_, rfl⟩
+    simp [apply, applyR, ha, spawn, Exec.get?, List.getElem?_append_left (get?_lt hg)]
+    exact hg
+  · exact absurd rfl (hop n)
+  · have hnd : (e.hot ++ e.cold).Nodup := by
+      rw [List.nodup_append]
+      refine ⟨h.q.hnd, h.q.cnd, ?_⟩
+      intro a ha b hb hab; subst hab; exact h.q.disj a ha hb
+    have := (foldl_clearTask (e.hot ++ e.cold) e hnd).1 id
+    simp only [apply, applyR, ha]
+    by_cases hm : id ∈ e.hot ++ e.cold
+    · rw [if_pos hm, hg] at this
+      exact ⟨clearedTask t, this, by simp [clearedTask, dropRef_polls, taskDropByExecutor_polls]⟩
+    · rw [if_neg hm, hg] at this
+      exact ⟨t, this, rfl⟩
+
+/-- (P) `tick` polls exactly what its log says: the poll counter of every task grows by the number of
+times its id occurs in the log returned by `tick` -/
+theorem tick_polls_exactly_logged (e : Exec) (h : Inv e) (n : Nat) (id : Nat) (t : TaskSt)
+    (hg : e.get? id = some t) :
+    ∃ t', (tick e n).1.get? id = some t' ∧ t'.polls = t.polls + (tick e n).2.1.count id :=
+  tickLoop_polls n e h id t hg
+
+/-- `unreachable!("Task is completed but has no result")` in `Local::poll` is never reached -/
+theorem local_poll_never_unreachable (e : Exec) (h : Inv e) (id w : Nat) (t : TaskSt)
+    (hg : e.get? id = some t) (hh : t.handle = true) : (handlePoll e id w).2 ≠ .invalid := by
+  rw [handlePoll_live w hg hh]
+  exact pollTask_valid _ t w (h.t id t hg) hh
+
+/-- `JoinHandle::cancel(self).await` on the home thread completes with its first poll -/
+theorem cancel_never_pending (e : Exec) (id : Nat) (t : TaskSt) (hg : e.get? id = some t)
+    (hh : t.handle = true) :
+    (applyR e (.hcancel id)).2 = .cancel .ok ∨ (applyR e (.hcancel id)).2 = .cancel .panicked ∨
+    (applyR e (.hcancel id)).2 = .cancel .cancelled := by
+  rw [hcancel_live hg hh]
+  rcases pollTask_cancelled (cancelWord t false) noopWaker (cancelWord_nc t false) with h | h | h <;> simp [h]
+
+/-! ## 3. Dropping the handle cancels; detaching lets the task run; panics are contained; teardown -/
+
+/-- dropping the handle of a task that is still queued cancels it and makes it hot (so the next ticks
+reach it) -/
+theorem hdrop_cancels_and_schedules (e : Exec) (h : Inv e) (id : Nat) (t : TaskSt) (hg : e.get? id = some t)
+    (hh : t.handle = true) (hq : inMap e id = true) :
+    id ∈ (handleDrop e id).1.hot ∧ cancelledIn (handleDrop e id).1 id := by
+  rw [handleDrop_live hg hh]
+  have hg' := get?_setTask_self (dropRef { cancelWord t true with handle := false })
+    (show (scheduleLocal e id).get? id = some t by rw [scheduleLocal_get?]; exact hg)
+  refine ⟨?_, _, hg', by rw [dropRef_nc]; exact cancelWord_nc t true⟩
+  have hm := (scheduleLocal_mem h.q id).mpr ((inMap_iff e id).mp hq)
+  rcases hm with hm | hm
+  · exact hm
+  · exact absurd hm (fun hc => scheduleLocal_not_cold h hg hc)
+
+/-- once cancelled, a task is never polled again and stays cancelled, whatever the program does next -/
+theorem cancelled_never_polled_again (ops more : List Op) (id : Nat) (t : TaskSt)
+    (hg : (run ops).get? id = some t) (hc : t.word.notCancelled = false) :
+    ∃ t', (run (ops ++ more)).get? id = some t' ∧ t'.polls = t.polls ∧ t'.word.notCancelled = false := by
+  obtain ⟨t', hg', hs⟩ := foldl_steps more (run_inv ops) hg
+  refine ⟨t', by simpa [run, List.foldl_append] using hg', (taskSteps_mono hs).cpolls hc, ?_⟩
+  cases hn : t'.word.notCancelled
+  · rfl
+  · rw [(taskSteps_mono hs).nc hn] at hc; cases hc
+
+/-- ... and its future is dropped, unpolled, by the first tick that reaches it (position `p` < `n`) -/
+theorem cancelled_dropped_when_reached (e : Exec) (h : Inv e) (n p id : Nat) (hx : e.hot[p]? = some id)
+    (hp : p < n) (hc : cancelledIn e id) :
+    inMap (tick e n).1 id = false ∧ id ∉ (tick e n).2.1 ∧
+    ∃ t', (tick e n).1.get? id = some t' ∧ t'.futDrops = 1 := by
+  have hgone : inMap (tick e n).1 id = false := (tickLoop_visit n e h p id hx hp).1 hc
+  obtain ⟨t, hg, hnc⟩ := hc
+  obtain ⟨t', hg', hpolls⟩ := tickLoop_polls n e h id t hg
+  obtain ⟨t'', hg'', hst⟩ := tickLoop_steps n e h id t hg
+  rw [hg'] at hg''; cases hg''
+  have hcp := (taskSteps_mono hst).cpolls hnc
+  refine ⟨hgone, ?_, t', hg', ?_⟩
+  · intro hm
+    have : 0 < (tick e n).2.1.count id := List.count_pos_iff.mpr hm
+    have h2 : t'.polls = t.polls + (tick e n).2.1.count id := hpolls
+    omega
+  · have := (tick_inv h n).t id t' hg'
+    rw [hgone] at this
+    exact this.outq_fd rfl
+
+/-- within ⌈(p+1)/n⌉ ticks, wherever it is in the hot queue -/
+theorem cancelled_dropped_within (e : Exec) (h : Inv e) (n : Nat) (hn : 0 < n) (k p id : Nat)
+    (hx : e.hot[p]? = some id) (hc : cancelledIn e id) (hp : p < k * n) :
+    inMap (tickN e n k).1 id = false := tickN_drops_cancelled h n hn k p id hx hc hp
+
+/-- `detach` only gives up the handle's reference: the task stays where it is in the queue, keeps its
+script and is not cancelled by it -/
+theorem detach_keeps_running (e : Exec) (id : Nat) (t : TaskSt) (hg : e.get? id = some t)
+    (hh : t.handle = true) :
+    (handleDetach e id).1.hot = e.hot ∧ (handleDetach e id).1.cold = e.cold ∧
+    ∃ t', (handleDetach e id).1.get? id = some t' ∧ t'.handle = false ∧ t'.script = t.script ∧
+      t'.word.notCancelled = t.word.notCancelled ∧ t'.polls = t.polls := by
+  rw [handleDetach_live hg hh]
+  refine ⟨rfl, rfl, _, get?_setTask_self _ hg, ?_, ?_, by rw [dropRef_nc], by rw [dropRef_polls]⟩
+  · exact ((dropRef_mono { t with handle := false }).hdl rfl).1
+  · obtain ⟨⟨s, sg, nsw, hw, c, hr, nc, cnt⟩, st, slot, script, sh, hd, wk, polls, fd, rt, rd, ss, sd, de, uaf, bp⟩ := t
+    cases hr <;> cases hw <;> simp [dropRef] <;> split <;> split <;> rfl
+
+/-- after `detach` nobody takes the output: when the task has completed and its allocation is freed,
+the output (or panic payload) has been dropped exactly once -/
+theorem detached_output_dropped_once (ops more : List Op) (id : Nat) (t t' : TaskSt)
+    (hg : (run ops).get? id = some t) (hh : t.handle = true)
+    (hg' : (run (ops ++ [.hdetach id] ++ more)).get? id = some t') :
+    t'.handle = false ∧ t'.resTaken = 0 ∧
+    (t'.deallocs = 1 → t'.word.completed = true → t'.resDrops = 1) := by
+  have hinv := run_inv ops
+  have ht := hinv.t id t hg
+  -- a live handle has not taken anything yet
+  have hrt : t.resTaken = 0 := by
+    have hc := ht.cnt
+    have hd : t.deallocs = 0 := by
+      have := ht.dl; simp [holders, hh] at this; exact this
+    cases hcp : t.word.completed
+    · simp [hcp] at hc; omega
+    · have := ht.hd hh hcp
+      simp [hcp, this, hd] at hc; omega
+  have h1 : (run (ops ++ [.hdetach id])).get? id = some (dropRef { t with handle := false }) := by
+    rw [run_append]
+    simp only [apply, applyR, handleDetach_live hg hh]
+    exact get?_setTask_self _ hg
+  obtain ⟨t2, hg2, hs⟩ := foldl_steps more (run_inv (ops ++ [.hdetach id])) h1
+  have hg2' : (run (ops ++ [.hdetach id] ++ more)).get? id = some t2 := by
+    simpa [run, List.foldl_append] using hg2
+  rw [hg'] at hg2'; cases hg2'
+  have hd1 := (dropRef_mono { t with handle := false }).hdl rfl
+  have hd2 := (taskSteps_mono hs).hdl hd1.1
+  have hrt' : t'.resTaken = 0 := by rw [hd2.2, hd1.2]; exact hrt
+  refine ⟨hd2.1, hrt', ?_⟩
+  intro hde hcp
+  have := ((run_inv (ops ++ [.hdetach id] ++ more)).t id t' hg').cnt
+  simp [hcp, hde] at this
+  omega
+
+/-- frame lemma: running one task (whether its future returns, wakes, or PANICS) changes no other
+task's state -/
+theorem runOne_frame (e : Exec) (id x : Nat) (hx : x ≠ id) : (runOne e id).1.get? x = e.get? x := by
+  unfold runOne
+  cases hg : e.get? id with
+  | none => rfl
+  | some t =>
+    simp only
+    rcases hr : runTask t with ⟨t', k, w⟩
+    cases k <;> simp [removeTask, scheduleLocal_get?, get?_setTask_ne e t' hx] <;>
+      simp [Exec.get?, Exec.setTask, List.getElem?_set_ne (Ne.symm hx)]
+
+/-- ... and no other task's membership in the queues -/
+theorem runOne_queue_frame (e : Exec) (h : Inv e) (id x : Nat) (hx : x ≠ id) (hc : id ∈ e.cold) :
+    (x ∈ (runOne e id).1.hot ↔ x ∈ e.hot) ∧ (x ∈ (runOne e id).1.cold ↔ x ∈ e.cold) := by
+  unfold runOne
+  cases hg : e.get? id with
+  | none => exact ⟨Iff.rfl, Iff.rfl⟩
+  | some t =>
+    simp only
+    rcases hr : runTask t with ⟨t', k, w⟩
+    cases k <;> simp [removeTask, Exec.setTask, List.mem_erase_of_ne hx]
+    rcases scheduleLocal_cases ({ e with tasks := e.tasks.set id t' } : Exec) id with h1 | ⟨_, h1⟩ <;> rw [h1] <;>
+      simp [List.mem_erase_of_ne hx, hx]
+
+/-- a dropped executor stays dropped -/
+theorem dead_stays_dead (e : Exec) (hd : e.alive = false) (op : Op) : (apply e op).alive = false := by
+  rcases apply_cases e op with h0 | ⟨id', t1, t', _, _, _, h1 | h1⟩ | ⟨ha, _⟩
+  · rw [h0]; exact hd
+  · rw [h1]; exact hd
+  · rw [h1]; simp [Exec.setTask, scheduleLocal_alive, hd]
+  · rw [hd] at ha; cases ha
+
+/-- executor torn down while handles and wakers are still used elsewhere: whatever happens afterwards,
+every task whose handle and wakers are gone has been freed (exactly once, by `dealloc_exactly_once`),
+its future dropped exactly once -/
+theorem teardown_frees_everything (ops more : List Op) (id : Nat) (t : TaskSt)
+    (hg : (run (ops ++ [.xdrop] ++ more)).get? id = some t) (hh : t.handle = false) (hw : t.wakers = 0) :
+    t.deallocs = 1 ∧ t.futDrops = 1 ∧ t.uaf = 0 := by
+  have hdead : (run (ops ++ [.xdrop] ++ more)).alive = false := by
+    have h1 : (run (ops ++ [.xdrop])).alive = false := by
+      rw [run_append]
+      unfold apply applyR
+      cases ha : (run ops).alive <;> simp [ha, execDrop]
+    have : ∀ (l : List Op) (e : Exec), e.alive = false → (l.foldl apply e).alive = false := by
+      intro l
+      induction l with
+      | nil => intro e he; exact he
+      | cons op l ih => intro e he; exact ih _ (dead_stays_dead e he op)
+    simpa [run, List.foldl_append] using this more _ h1
+  have hinv := run_inv (ops ++ [.xdrop] ++ more)
+  obtain ⟨d1, d2⟩ := hinv.dead hdead
+  have hin : inMap (run (ops ++ [.xdrop] ++ more)) id = false := by
+    rw [inMap_false_iff, d1, d2]; simp
+  have ht := hinv.t id t hg
+  rw [hin] at ht
+  refine ⟨?_, ht.outq_fd rfl, ht.uaf⟩
+  have := ht.dl
+  simpa [holders, hh, hw] using this
+
+/-! ## 4. Tick order and no starvation -/
+
+/-- `tick` polls in hot-queue (FIFO) order: the poll log starts with the first `min n |hot|` hot tasks
+(`hot.take n`), provided none of them is cancelled (a cancelled one is dropped instead of polled) -/
+theorem tick_polls_in_hot_order (e : Exec) (h : Inv e) (n : Nat)
+    (hl : ∀ x, x ∈ e.hot.take n → liveIn e x) :
+    ∃ extra, (tick e n).2.1 = e.hot.take n ++ extra := tickLoop_order n e h hl
+
+/-- progress in ONE tick with `max_interval = n`: a hot task at position `p` is visited (polled if live,
+dropped and removed if cancelled) when `p < n`, and otherwise moves up to position `p - n` -/
+theorem tick_progress (e : Exec) (h : Inv e) (n p x : Nat) (hx : e.hot[p]? = some x) :
+    (p < n → (liveIn e x → x ∈ (tick e n).2.1) ∧ (cancelledIn e x → inMap (tick e n).1 x = false)) ∧
+    (n ≤ p → (tick e n).1.hot[p - n]? = some x) :=
+  ⟨fun hp => ⟨(tickLoop_visit n e h p x hx hp).2, (tickLoop_visit n e h p x hx hp).1⟩,
+   fun hp => tickLoop_shift n e h p x hx hp⟩
+
+/-- no starvation: a runnable task at position `p` of the hot queue is polled within `k` ticks as soon as
+`k * n > p`, i.e. within ⌈(p+1)/n⌉ ticks, for every `max_interval = n > 0` and whatever the other
+tasks do (wake themselves, complete, panic, ...) -/
+theorem no_starvation (e : Exec) (h : Inv e) (n : Nat) (hn : 0 < n) (k p x : Nat)
+    (hx : e.hot[p]? = some x) (hl : liveIn e x) (hp : p < k * n) : x ∈ (tickN e n k).2 :=
+  tickN_polls_live h n hn k p x hx hl hp
+
+/-- a freshly spawned task is runnable: it is the last element of the hot queue -/
+theorem spawn_is_hot (e : Exec) (sc : List Outcome) :
+    (spawn e sc).1.hot[e.hot.length]? = some (spawn e sc).2 ∧ liveIn (spawn e sc).1 (spawn e sc).2 := by
+  refine ⟨by simp [spawn], ?_⟩
+  unfold liveIn
+  simp [spawn, Exec.get?]
+
+/-- a wake-up through a task waker makes a parked (cold) task runnable again -/
+theorem wake_makes_hot (e : Exec) (h : Inv e) (id : Nat) (t : TaskSt) (hg : e.get? id = some t)
+    (hw : t.wakers ≠ 0) (hq : inMap e id = true) : id ∈ (wakeLocal e id).1.hot := by
+  rw [wakeLocal_live hg hw]
+  rcases (scheduleLocal_mem h.q id).mpr ((inMap_iff e id).mp hq) with hm | hm
+  · exact hm
+  · exact absurd hm (fun hc => scheduleLocal_not_cold h hg hc)
+
+/-! ## 5. Delivery of the completion wake-up to a handle polled on the home thread -/
+
+/-- a poll that returns Pending leaves the caller's waker in the slot, flagged HAS_WAKER -/
+theorem pending_poll_parks_waker (e : Exec) (h : Inv e) (id w : Nat) (t : TaskSt)
+    (hg : e.get? id = some t) (hh : t.handle = true) (hp : (handlePoll e id w).2 = .pending) :
+    ∃ t', (handlePoll e id w).1.get? id = some t' ∧ t'.slot = some w ∧ t'.word.hasWaker = true ∧
+      t'.handle = true := by
+  rw [handlePoll_live w hg hh] at hp ⊢
+  refine ⟨_, get?_setTask_self _ hg, ?_⟩
+  have hwk := (h.t id t hg).wk
+  obtain ⟨⟨s, sg, nsw, hw', c, hr, nc, cnt⟩, st, slot, script, sh, hd, wk, polls, fd, rt, rd, ss, sd, de, uaf, bp⟩ := t
+  simp at hh hwk; subst hh
+  cases hr <;> cases nc <;> cases c <;> cases hw' <;> simp [pollTask] at hp ⊢ <;> (try split at hp) <;>
+    simp_all <;> split <;> simp_all
+
+/-- when the future of the task at the head of the hot queue returns Ready (or panics), the join waker
+parked in the slot is woken by that very loop body -/
+theorem completion_wakes_parked_waker (e : Exec) (h : Inv e) (id w : Nat) (rest : List Nat) (t : TaskSt)
+    (o : Outcome) (r : List Outcome)
+    (hh : e.hot = id :: rest) (hg : e.get? id = some t) (hs : t.slot = some w)
+    (hc : t.word.notCancelled = true) (hsc : t.script = o :: r) (ho : o = .ready ∨ o = .panic) :
+    (tickStep e id).1.woken = e.woken ++ [w] := by
+  obtain ⟨t', hg', ht, heq⟩ := tickStep_head h hh
+  rw [hg] at hg'; cases hg'
+  have hr := runTask_ready t hc (ht.inq_c rfl) o r hsc ho
+  rw [heq, hr]
+  have hwk := ht.wk
+  rw [hs] at hwk
+  simp [hwk, ht.nsw, hs]
+
+/-- `liveIn` / `cancelledIn` are decidable on concrete states -/
+theorem liveIn_iff (e : Exec) (x : Nat) :
+    liveIn e x ↔ (e.get? x).map (fun t => t.word.notCancelled) = some true := by
+  unfold liveIn
+  cases e.get? x <;> simp
+
+theorem cancelledIn_iff (e : Exec) (x : Nat) :
+    cancelledIn e x ↔ (e.get? x).map (fun t => t.word.notCancelled) = some false := by
+  unfold cancelledIn
+  cases e.get? x <;> simp
+
+/-! ## 6. Non-vacuity: concrete programs (the same `run` the driver executes) -/
+
+/-- the prefetching iterator: a self-waking task goes to the hot tail and is polled again in the same tick -/
+example : (applyR (run [.spawn [.wakeSelf, .ready], .spawn [.pending]]) (.tick 61)).2
+    = .polled [0, 1, 0] false := by decide
+
+/-- ... but a lone self-waking task is polled once per tick (the iterator prefetched `None`) -/
+example : (applyR (run [.spawn [.wakeSelf, .ready]]) (.tick 61)).2 = .polled [0] true := by decide
+
+/-- handle dropped before completion: never polled again, future dropped at the next tick, freed -/
+example : ((run [.spawn [.pending, .ready], .tick 61, .hdrop 0, .tick 61]).get? 0).map
+    (fun t => (t.polls, t.futDrops, t.deallocs, t.resTaken + t.resDrops)) = some (1, 1, 1, 0) := by decide
+
+/-- the hypotheses of `hdrop_cancels_and_schedules` / `cancelled_dropped_when_reached` are met there -/
+example : let e := run [.spawn [.pending, .ready], .tick 61, .hdrop 0]
+    e.hot[0]? = some 0 ∧ ((e.get? 0).map (fun t => t.word.notCancelled)) = some false := by decide
+
+/-- detached task: runs to completion, output dropped exactly once, allocation freed -/
+example : ((run [.spawn [.wakeSelf, .ready], .hdetach 0, .tick 61, .tick 61]).get? 0).map
+    (fun t => (t.polls, t.word.completed, t.resTaken, t.resDrops, t.deallocs)) = some (2, true, 0, 1, 1) := by decide
+
+/-- a panicking task: the payload reaches the handle exactly once; the other task is untouched -/
+example : let e := run [.spawn [.panic], .spawn [.pending], .tick 61]
+    (applyR e (.hpoll 0 3)).2 = .join .panicked ∧
+    ((apply e (.hpoll 0 3)).get? 0).map (fun t => (t.resTaken, t.resDrops, t.deallocs)) = some (1, 0, 1) ∧
+    (e.get? 1).map (fun t => (t.polls, t.futDrops, t.word.completed)) = some (1, 0, false) := by decide
+
+/-- completion wakes the waker the handle was parked with; a second, different waker replaces the first -/
+example : (run [.spawn [.pending, .ready], .hpoll 0 7, .tick 61, .hpoll 0 8, .wake 0, .tick 61]).woken = [] ∧
+    (run [.spawn [.wakeSelf, .ready], .hpoll 0 7, .tick 61, .hpoll 0 8, .tick 61]).woken = [8] ∧
+    ((run [.spawn [.wakeSelf, .ready], .hpoll 0 7, .tick 61, .hpoll 0 8, .tick 61]).get? 0).map
+      (fun t => (t.slotSets, t.slotDrops)) = some (2, 2) := by decide
+
+/-- executor dropped while a waker clone and the handle live on: freed only when both are gone -/
+example : let e := run [.spawn [.cloneWaker, .ready], .tick 61, .xdrop]
+    (e.get? 0).map (fun t => (t.futDrops, t.deallocs, t.word.count)) = some (1, 0, 2) ∧
+    ((apply e (.hpoll 0 1)).get? 0).map (fun t => (t.deallocs, t.handle)) = some (0, false) ∧
+    ((run [.spawn [.cloneWaker, .ready], .tick 61, .xdrop, .wake 0, .hpoll 0 1, .wdrop 0]).get? 0).map
+      (fun t => (t.deallocs, t.uaf, t.futDrops)) = some (1, 0, 1) := by decide
+
+/-- `no_starvation` with `max_interval = 1`: three self-waking tasks, the one at position 2 is polled in
+the third tick; and the theorem's hypotheses hold for it -/
+example : let e := run [.spawn [.wakeSelf, .wakeSelf, .wakeSelf], .spawn [.wakeSelf, .wakeSelf], .spawn [.ready]]
+    e.hot[2]? = some 2 ∧ (tickN e 1 3).2 = [0, 1, 2] ∧ (tickN e 1 2).2 = [0, 1] := by decide
+
+example : 2 ∈ (tickN (run [.spawn [.wakeSelf, .wakeSelf, .wakeSelf], .spawn [.wakeSelf, .wakeSelf], .spawn [.ready]]) 1 3).2 :=
+  no_starvation _ (run_inv _) 1 (by decide) 3 2 2 (by decide) ((liveIn_iff _ _).mpr (by decide)) (by decide)
+
+/-- `JoinHandle::cancel` on a completed task returns its output; on a running one, `None` -/
+example : (applyR (run [.spawn [.ready], .tick 61]) (.hcancel 0)).2 = .cancel .ok ∧
+    (applyR (run [.spawn [.pending], .tick 61]) (.hcancel 0)).2 = .cancel .cancelled := by decide
+
+/-! ## 7. The join handle on ANOTHER thread (Compio/Model/RemoteJoin.lean)
+
+One task, executor thread `E` and handle thread `H`; every transition is one atomic access to the task
+word (through a function regenerated from task/state.rs) or one access to the waker slot / storage.
+`Reachable true s`: `s` is reached by SOME interleaving of the current `Remote::poll` / `Task::run` /
+`Task::drop` / `Task::cancel` / `impl Drop for Task` programs (`reachable_iff_trace`); the theorems hold
+for ALL of them and for all waker ids. `Reachable false` is the program before fix e466077. -/
+
+section remote
+open Compio.RemoteJoin
+
+/-- reachable states = end states of the event lists accepted by the LTS -/
+theorem remote_reachable_iff_trace (fixed : Bool) (s : RState) :
+    Reachable fixed s ↔ ∃ ls : List Label, Trace fixed RemoteJoin.init ls s := reachable_iff_trace
+
+/-- (i) slot exclusivity: no two threads ever have the waker slot as the target of their next access -/
+theorem remote_slot_exclusive (s : RState) (h : Reachable true s) :
+    ¬ (eAccessesSlot s = true ∧ hAccessesSlot s = true) := slot_exclusive h
+
+/-- (i) executor side: E touches the slot only after a snapshot with HAS_WAKER and without SETTING_WAKER,
+while H is not comparing / writing / about to publish; the last holder touches it only when H is gone -/
+theorem remote_slot_section_executor (s : RState) (h : Reachable true s) (he : eAccessesSlot s = true) :
+    (s.hpc ≠ .compare ∧ s.hpc ≠ .write ∧ s.hpc ≠ .finishTrue) ∧
+    (s.epc = .wake ∨ s.epc = .dropSlot →
+      TaskState.hasWaker s.esnap = true ∧ TaskState.isSettingWaker s.esnap = false) ∧
+    (s.epc = .last → s.hpc = .done) := slot_section_executor h he
+
+/-- (i) handle side: H compares / writes the slot only inside its SETTING_WAKER section, and then E is
+not at a slot access; the SETTING_WAKER bit is exactly "H is inside the section" -/
+theorem remote_slot_section_handle (s : RState) (h : Reachable true s) :
+    (s.hpc = .compare ∨ s.hpc = .write → TaskState.isSettingWaker s.word = true ∧ eAccessesSlot s = false) ∧
+    TaskState.isSettingWaker s.word = hInSection s :=
+  ⟨fun hh => slot_section_handle h hh, setting_waker_iff_in_section h⟩
+
+/-- the future/result storage is never accessed by both threads, and never in the wrong variant; the
+slot is never read or dropped uninitialised -/
+theorem remote_storage_exclusive (s : RState) (h : Reachable true s) :
+    ¬ (eAccessesStorage s = true ∧ hAccessesStorage s = true) ∧ s.bad = 0 :=
+  ⟨storage_exclusive h, no_bad_access h⟩
+
+/-- (ii) DELIVERY (false before fix e466077: `Compio.Cex.C04.delivery_counterexample_unfixed`): whenever the
+handle's last poll returned Pending with waker `w`, the task has completed and the executor is past
+`Task::run`'s wake decision, `w` has been woken -/
+theorem remote_delivery (s : RState) (h : Reachable true s) (w : Nat) (hp : s.parked = some w)
+    (hc : TaskState.isCompleted s.word = true) (he : ePastWake s = true) : w ∈ s.woken :=
+  delivery h w hp hc he
+
+/-- while the handle is parked with `w` and the task is still running, `w` sits in the slot under
+HAS_WAKER; and it is `w` that the executor's wake reads -/
+theorem remote_parked_waker_in_slot (s : RState) (h : Reachable true s) (w : Nat) (hp : s.parked = some w) :
+    (TaskState.isCompleted s.word = false →
+      (s.epc = .idle ∨ s.epc = .poll ∨ s.epc = .finishRunning ∨ s.epc = .wake ∨ s.epc = .setDropped) →
+      s.slot = some w ∧ TaskState.hasWaker s.word = true ∧ TaskState.isSettingWaker s.word = false) ∧
+    (s.epc = .wake → s.slot = some w) :=
+  ⟨fun hc hd => pending_means_slot h w hp hc hd, fun he => wake_reads_parked_waker h w hp he⟩
+
+/-- (iii) across threads: the output is taken xor dropped at most once, exactly once after deallocation
+iff the task completed; the handle got `Ready(Some)` iff it took the output -/
+theorem remote_result_once (s : RState) (h : Reachable true s) :
+    s.resTaken + s.resDrops ≤ 1 ∧
+    (s.deallocs = 1 → (s.resTaken + s.resDrops = 1 ↔ TaskState.isCompleted s.word = true)) ∧
+    (s.hret = some true ↔ s.resTaken = 1) ∧ (s.hret = some false → TaskState.isCancelled s.word = true) :=
+  ⟨(result_once h).1, (result_once h).2, (join_result h).1, (join_result h).2⟩
+
+/-- (iii) the future is polled only while it is there, dropped exactly once, ... -/
+theorem remote_future_once (s : RState) (h : Reachable true s) :
+    s.futDrops ≤ 1 ∧ (s.epc = .dec ∨ s.epc = .last ∨ s.epc = .done → s.futDrops = 1) ∧
+    (s.futDrops = 0 ↔ s.storage = .future) ∧
+    (s.epc = .poll → s.storage = .future ∧ TaskState.isCompleted s.word = false) :=
+  ⟨(future_once h).1, (future_once h).2.1, (future_once h).2.2, fun hp => poll_only_future h hp⟩
+
+/-- ... and only by the executor thread: every transition that polls or drops the future is the
+executor's, every transition that takes the output is the handle's (any program, any state) -/
+theorem remote_future_on_home_thread (fixed : Bool) (s s' : RState) (l : Label) (hs : Step fixed s l s') :
+    (s'.futDrops ≠ s.futDrops ∨ s'.polls ≠ s.polls → l.actor = .E) ∧
+    (s'.resTaken ≠ s.resTaken → l.actor = .H) :=
+  ⟨fun hne => future_dropped_by_executor_only hs hne, fun hne => result_taken_by_handle_only hs hne⟩
+
+/-- (iii) deallocation exactly once, when both holders are done; the count is the number of holders;
+nothing is accessed after the free -/
+theorem remote_dealloc_once (s : RState) (h : Reachable true s) :
+    s.deallocs ≤ 1 ∧ (s.deallocs = 1 ↔ (s.epc = .done ∧ s.hpc = .done)) ∧ s.uaf = 0 ∧
+    TaskState.count s.word = (if s.epc = .last ∨ s.epc = .done then 0 else 1) +
+      (if s.hpc = .last ∨ s.hpc = .done then 0 else 1) :=
+  ⟨(dealloc_once h).1, (dealloc_once h).2.1, (dealloc_once h).2.2, count_is_holders h⟩
+
+/-- join-waker accounting across threads. The full statement "no waker is left in the slot when the
+allocation is freed" is FALSE on the current code (finding F040,
+`Compio.Cex.C04.waker_leak_counterexample`); what holds: -/
+theorem remote_waker_accounting_partial (s : RState) (h : Reachable true s) :
+    s.slotSets = s.slotDrops + (if s.slot.isSome then 1 else 0) ∧
+    (TaskState.hasWaker s.word = true → s.deallocs = 0 → s.slot.isSome = true) ∧
+    (s.deallocs = 1 →
+      (∀ w : Nat, s.slot = some w → s.eroute = .completed ∧ w ∈ s.woken) ∧
+      (s.eroute ≠ .completed → s.slot = none ∧ s.slotSets = s.slotDrops)) :=
+  ⟨waker_slot_accounting h, (waker_flag_slot h).1, fun hd => slot_dropped_at_dealloc_partial h hd⟩
+
+end remote
 
 end Compio.Props.C04
